@@ -77,8 +77,18 @@ def judge_union(res, case, la, lb, ld, slots_a, slots_b):
                 return
     for slot in sd:
         if slot not in slots_a and slot not in slots_b and slot not in ud:
-            res.violation("c11:slot-from-nowhere", "slot %s is reported for the combination but belongs to neither fragment" % hex(slot), case)
-            return
+            # a slot outside the declared pools (e.g. a literal 256-bit key one fragment uses): it must come from exactly
+            # one fragment's own layout, unchanged
+            if slot in ua or slot in ub:
+                continue
+            alone = [x for x in (sa.get(slot), sb.get(slot)) if x is not None]
+            if not alone:
+                res.violation("c11:slot-from-nowhere", "slot %s is reported for the combination but by neither fragment alone" % hex(slot), case)
+                return
+            if len(alone) == 1 and alone[0] != sd[slot]:
+                res.violation("c11:slot-type-changes-with-unrelated-code", "slot %s (outside the declared pools): alone %s, behind the "
+                              "dispatcher %s" % (hex(slot), alone[0], sd[slot]), dict(case, slot=hex(slot)))
+                return
 
 
 def judge_renumber(res, case, lp, lq, sigma, how):
